@@ -14,6 +14,7 @@ let rec parse_beh (t : ostring list) : beh * ostring list =
   | "G" :: m :: z :: e :: r -> (BErrZ (m = "1", zi (ios z), zi (ios e)), r)
   | "P" :: m :: r -> (BPause (m = "1"), r)
   | "X" :: m :: r -> (BCancel (m = "1"), r)
+  | "Y" :: _ :: z :: r -> (BRet (false, zi (ios z)), r)   (* engx scenarios only (no model run): the graph and the units are all that is read *)
   | "F" :: k :: e :: r -> let (b, r') = parse_beh r in (BFailFirst (nat_of_int (ios k), zi (ios e), b), r')
   | "B" :: r -> let (b1, r1) = parse_beh r in let (b2, r2) = parse_beh r1 in (BBranch (b1, b2), r2)
   | _ -> failwith "beh"
